@@ -70,17 +70,17 @@ theorem advSince_trackWakes (id : Nat) (a last : Int) (seen : List Int) :
       exact ih a last
 
 theorem lastSet_snoc_update (id : Nat) (v n : Int) (l : List Op) (r : Bool) :
-    lastSet id v (l ++ [Op.update id ⟨none, some n, none, none, r⟩]) = n := by
+    lastSet id v (l ++ [Op.update id ⟨none, some n, none, none, r, none, []⟩]) = n := by
   simp [lastSet, List.foldl_append, setValue]
 
 theorem advSince_snoc_update (id : Nat) (a n : Int) (l : List Op) (r : Bool) :
-    advSince id a (l ++ [Op.update id ⟨none, some n, none, none, r⟩]) = 0 := by
+    advSince id a (l ++ [Op.update id ⟨none, some n, none, none, r, none, []⟩]) = 0 := by
   simp [advSince, List.foldl_append, setValue]
 
 /-- `add_task` puts a new task under the id `_task_index` -/
-theorem step_addTask_lookup (cfg : Cfg) (clock : Clock) (st : State) (hwf : WF st) (s : Bool) (tot c : Int) (v : Bool) :
-    ∃ t, lookup (step cfg clock (.addTask s tot c v) st).st.tasks st.nextId = some t ∧
-      t.completed = c ∧ t.total = tot ∧ t.samples = [] ∧ t.finishedTime = none := by
+theorem step_addTask_lookup (cfg : Cfg) (clock : Clock) (st : State) (hwf : WF st) (a : AddArgs) :
+    ∃ t, lookup (step cfg clock (.addTask a) st).st.tasks st.nextId = some t ∧
+      t.completed = a.completed ∧ t.total = a.total ∧ t.samples = [] ∧ t.finishedTime = none := by
   rw [step_eq_body_none]
   simp only [body]
   rw [lookup_append_new (by intro x hx; exact hwf x hx)]
